@@ -225,6 +225,25 @@ def oracle_formats(case):
             a["x"], a["y"], a["z"] = round(float(q[0]), 3), round(float(q[1]), 3), round(float(q[2]), 3)
         info["moved"] = True
         info["wide-coordinates"] = bool(Q.min() <= -100.0 or Q.max() >= 1000.0)
+    if case.get("first_serial") or case.get("hetatm"):
+        # atom ids as a fragment cut from a large entry keeps them (five digits fill the serial column right up to the
+        # record name) and non-standard residues written as HETATM records, as deposited files have them
+        first = case.get("first_serial") or 1
+        if first + len(atoms) > 99999:
+            info["skipped"] = True
+            return []
+        order = []
+        for a in atoms:
+            key = (a["chain"], a["resseq"], a["icode"])
+            if key not in order:
+                order.append(key)
+        third = {key for i, key in enumerate(order) if i % 3 == 2}
+        for k, a in enumerate(atoms):
+            a["serial"] = first + k
+            if (case.get("hetatm") == "nonstandard" and a["resname"] not in ("A", "C", "G", "U", "DA", "DC", "DG", "DT")) or \
+                    (case.get("hetatm") == "every-third-residue" and (a["chain"], a["resseq"], a["icode"]) in third):
+                a["record"] = "HETATM"
+        info["five-digit-serials"] = first + len(atoms) > 10000
     if case.get("offset"):
         # the format relation composed with a renumbering: author numbers shifted by a constant (leader sequences and
         # tags are numbered below zero), the same numbers written in both formats
@@ -401,6 +420,8 @@ def classify(case):
             labs.append("coordinate<=-100-or>=1000")
         if info.get("negative-numbers"):
             labs.append("formats-with-negative-author-numbers")
+        if info.get("five-digit-serials"):
+            labs.append("formats-with-five-digit-serials")
         if info.get("ensemble"):
             labs.append("formats-of-an-ensemble-" + ("later" if info.get("later-model-requested") else "first") + "-model-requested")
     if info.get("undecided"):
@@ -438,6 +459,7 @@ def st_formats(files):
     return st.fixed_dictionaries({"kind": st.just("formats"), "file": st.sampled_from(files), "null": st.sampled_from(["?", "."]),
                                   "rot": st.one_of(st.none(), st.integers(0, 23)), "shift": st.lists(comp, min_size=3, max_size=3),
                                   "offset": st.sampled_from([0, 0, -210, -500, -60, 1000]),
+                                  "first_serial": st.sampled_from([0, 0, 9001, 90000]), "hetatm": st.sampled_from([None, "nonstandard", "every-third-residue"]),
                                   "ensemble": st.one_of(st.none(), st.tuples(st.integers(2, 3), st.integers(0, 2)).map(list)),
                                   "model_numbers": st.sampled_from([None, None, [3, 1, 2], [2, 5, 7]])})
 
